@@ -3,6 +3,7 @@ Driver/Verbs — one protocol verb per model entry point.
 -/
 import BiscuitModel.Driver.Codec
 import BiscuitModel.Model.Odometer
+import BiscuitModel.Model.Construct
 
 namespace Biscuit.Driver
 open Biscuit
@@ -66,8 +67,10 @@ def verbAuthSeq (fields : List Sexp) : String :=
     let (mf, mi) ← match ← field "limits" fields with
       | [.atom a, .atom b] => do pure (← a.toNat?, ← b.toNat?)
       | _ => none
-    let toks ← (← field "tokens" fields).mapM decToken
-    let ops ← (← field "ops" fields).mapM decAuthOp
+    -- biscuit-level content goes through the token layer's construction step (sets hold
+    -- each element once) before it reaches the engine
+    let toks := (← (← field "tokens" fields).mapM decToken).map Construct.normToken
+    let ops := (← (← field "ops" fields).mapM decAuthOp).map Construct.normAuthOp
     let cfg := cfgOf fields
     let st : SeqState := { tok := 0, auth := AuthState.fresh { maxFacts := mf, maxIter := mi } }
     let outs := runSeq cfg false toks st ops
@@ -100,7 +103,7 @@ def verbWire (fields : List Sexp) : String :=
         let pr := match e.proof with | .nextSecret _ => "secret" | .finalSignature _ => "final" | .empty => "none"
         let revs := ",".intercalate ((revocationIds e).map encodeHex)
         let blocks := spaced (contents.map fun c =>
-          "(" ++ encBlockSx c.block ++ " (context " ++ encodeHex c.context ++ "))")
+          "(" ++ encBlockW true c.block ++ " (context " ++ encodeHex c.context ++ "))")
         let reBlocks := (buildBlockMsgs base contents).map Wire.encodeBlock
         -- symbol indexes depend on the order of the builder calls; only when the caller
         -- added facts, then rules, then checks can the block bytes be reproduced
@@ -213,9 +216,9 @@ def verbSnap (fields : List Sexp) : String :=
       | some snap =>
         let re := if Wire.encodePolicies (buildSnapshotMsg snap) == bs then "same" else "differ"
         let pol := snap.policies.map fun p =>
-          tagged (match p.kind with | .allow => "allow" | .deny => "deny") (p.queries.map encRuleSx)
-        "ok " ++ tagged "facts" (snap.facts.map encFactRaw) ++ " " ++ tagged "rules" (snap.rules.map encRuleSx) ++ " " ++
-          tagged "checks" (snap.checks.map encCheckSx) ++ " " ++ tagged "policies" pol ++ " reenc=" ++ re
+          tagged (match p.kind with | .allow => "allow" | .deny => "deny") (p.queries.map (encRuleW true))
+        "ok " ++ tagged "facts" (snap.facts.map (encFactW true)) ++ " " ++ tagged "rules" (snap.rules.map (encRuleW true)) ++ " " ++
+          tagged "checks" (snap.checks.map (encCheckW true)) ++ " " ++ tagged "policies" pol ++ " reenc=" ++ re
 
 /-- DECODE: (case (bytes xHEX) …) — does `Unmarshal` accept the bytes? -/
 def verbDecode (fields : List Sexp) : String :=
@@ -264,6 +267,7 @@ def verbPrint (fields : List Sexp) : String :=
   match fields.findSome? (fun f => decBlock f) with
   | none => "bad-case"
   | some b =>
+    let b := Construct.normBlock b
     let facts : List (Pred Val) := b.facts.map fun f => { name := f.name, terms := f.args.map Term.const }
     let txt := Printer.printBlockCode facts b.rules b.checks
     "text " ++ encodeHex (String.ofList txt).toUTF8.toList
